@@ -443,12 +443,23 @@ func (x *Exec) copyOp(fr *Frame, st *State, c *ssa.CallCommon, args []Value) Val
 
 func (x *Exec) bigVal(st *State, ref *Term) *Term {
 	arr := x.heapArr(st, "BigVal", SInt, SInt)
-	return Select(arr, ref)
+	return x.heapSelect(st, "BigVal", arr, ref)
 }
 
 func (x *Exec) setBigVal(st *State, ref, v *Term) {
-	arr := x.heapArr(st, "BigVal", SInt, SInt)
-	st.heap["BigVal"] = x.nameTerm(st, Store(arr, ref, v), "h")
+	x.heapArr(st, "BigVal", SInt, SInt)
+	x.heapStoreFwd(st, "BigVal", ref, v)
+	fresh := false
+	for _, a := range st.allocs {
+		if a.S == ref.S {
+			fresh = true
+			break
+		}
+	}
+	if !fresh {
+		// a big integer that existed at entry (or whose origin is unknown) was mutated
+		x.bumpEpoch(st)
+	}
 }
 
 func (x *Exec) bigIntrinsic(fr *Frame, st *State, key string, c *ssa.CallCommon, args []Value) (Value, bool) {
